@@ -86,3 +86,141 @@ Theorem C15_bwr_ls_default_matches_doc_refuted :
   snd (BWR_LS_den false 2 1 1 1 1 [0%nat] [] 3) < snd (BWR_LS_den true 2 1 1 1 1 [0%nat] [] 3).
 Proof. exact bwr_ls_default_differs_from_doc. Qed.
 Print Assumptions C15_bwr_ls_default_matches_doc_refuted.
+
+(* ======== BWR_LS2, MultiBWR, MultiBW (models: Shape/LineShapes2.v) ======== *)
+From Coq Require Import Lra ZArith.
+From TFV Require Import Shape.LineShapes2 Shape.LineShapes2_proofs.
+(* ---- BWR_LS2 ---- *)
+(* the code (BWR2 with the coupling's own l) is the documented 1/(m0^2-m^2-i m0 G0 (rho/rho0) g_i^2), gamma_i = 1,
+   above threshold, for every coupling i *)
+Theorem C15_bwr_ls2_documented : forall m m0 g0 q q0 ls d i,
+  (nth i ls 0 <= 8)%nat -> 0 < q -> 0 < q0 ->
+  BWR_LS2 m m0 g0 (q ^ 2) (q0 ^ 2) ls d i = BWR_LS2_doc m m0 g0 q q0 1 (nth i ls 0%nat) d.
+Proof. exact bwr_ls2_documented. Qed.
+Print Assumptions C15_bwr_ls2_documented.
+
+(* the gamma_i of the docstring (absent from the code) is a rescaling of Gamma0 *)
+Theorem C15_bwr_ls2_doc_gamma_redundant : forall m m0 g0 q q0 gamma l d,
+  BWR_LS2_doc m m0 g0 q q0 gamma l d = BWR_LS2_doc m m0 (g0 * gamma ^ 2) q q0 1 l d.
+Proof. exact bwr_ls2_doc_gamma_redundant. Qed.
+Print Assumptions C15_bwr_ls2_doc_gamma_redundant.
+
+(* every coupling is the BWR of LineShapes.v with its own l *)
+Theorem C15_bwr_ls2_is_bwr : forall m m0 g0 q q0 ls d i,
+  (nth i ls 0 <= 8)%nat -> 0 < q -> 0 < q0 ->
+  BWR_LS2 m m0 g0 (q ^ 2) (q0 ^ 2) ls d i = BWR m m0 g0 q q0 (nth i ls 0%nat) d.
+Proof. exact bwr_ls2_is_bwr. Qed.
+Print Assumptions C15_bwr_ls2_is_bwr.
+
+Theorem C15_bwr_ls2_im_pos : forall m m0 g0 q q0 ls d i,
+  (nth i ls 0 <= 8)%nat -> 0 < g0 -> 0 < q -> 0 < q0 -> 0 < m -> 0 < m0 ->
+  0 < snd (BWR_LS2 m m0 g0 (q ^ 2) (q0 ^ 2) ls d i).
+Proof. exact bwr_ls2_im_pos. Qed.
+Print Assumptions C15_bwr_ls2_im_pos.
+
+(* Gamma(m0) = Gamma0 in the q^2 variables the model uses *)
+Theorem C15_gamma2_at_m0 : forall g0 q02 L m0 d,
+  (L <= 8)%nat -> 0 < q02 -> m0 <> 0 -> Gamma2 m0 g0 q02 q02 L m0 d = (g0, 0).
+Proof. exact gamma2_at_m0. Qed.
+Print Assumptions C15_gamma2_at_m0.
+
+(* value at m = m0: i / (m0 Gamma0), for every coupling *)
+Theorem C15_bwr_ls2_at_pole : forall m0 g0 q02 ls d i,
+  (nth i ls 0 <= 8)%nat -> 0 < q02 -> m0 <> 0 -> g0 <> 0 ->
+  BWR_LS2 m0 m0 g0 q02 q02 ls d i = (0, 1 / (m0 * g0)).
+Proof. exact bwr_ls2_at_pole. Qed.
+Print Assumptions C15_bwr_ls2_at_pole.
+
+(* connection with BWR_LS (documented form): one coupling => R_0 = g_0 x BWR_LS2 *)
+Theorem C15_bwr_ls_single_is_ls2 : forall m m0 g0 q2 q02 l d,
+  (l <= 8)%nat -> 0 < q2 -> 0 < q02 ->
+  BWR_LS true m m0 g0 q2 q02 [l] [] d 0 = Cscal (ls_barrier l q2 q02 d) (BWR_LS2 m m0 g0 q2 q02 [l] d 0).
+Proof. exact bwr_ls_single_is_ls2. Qed.
+Print Assumptions C15_bwr_ls_single_is_ls2.
+
+(* Particle.__call__(m) of BWR_LS2 is the S-wave coupling whatever the decay's l list is ... *)
+Theorem C15_bwr_ls2_call_is_swave : forall m m0 g0 q2 q02 d, BWR_LS2_call m m0 g0 q2 q02 d = BWR2 m m0 g0 q2 q02 0 d.
+Proof. exact bwr_ls2_call_is_swave. Qed.
+Print Assumptions C15_bwr_ls2_call_is_swave.
+(* ... hence not the line shape of a P-wave-only resonance (observation, witness) *)
+Theorem C15_bwr_ls2_call_uses_own_l_refuted :
+  snd (BWR_LS2_call 2 1 1 4 1 3) < snd (BWR_LS2 2 1 1 4 1 [1%nat] 3 0).
+Proof. exact bwr_ls2_call_not_own_l. Qed.
+Print Assumptions C15_bwr_ls2_call_uses_own_l_refuted.
+
+(* ---- MultiBWR: weighted sum of BWR2 terms times the coupling's barrier factor ---- *)
+Theorem C15_multibwr_additive : forall m q2 q02 ls d res ca cb,
+  length ca = length cb ->
+  MultiBWR m q2 q02 ls d res [coeff_add ca cb] 0 =
+  Cadd (MultiBWR m q2 q02 ls d res [ca] 0) (MultiBWR m q2 q02 ls d res [cb] 0).
+Proof. exact multibwr_additive. Qed.
+Print Assumptions C15_multibwr_additive.
+
+Theorem C15_multibwr_homogeneous : forall m q2 q02 ls d res k ca,
+  MultiBWR m q2 q02 ls d res [map (Cmul k) ca] 0 = Cmul k (MultiBWR m q2 q02 ls d res [ca] 0).
+Proof. exact multibwr_homogeneous. Qed.
+Print Assumptions C15_multibwr_homogeneous.
+
+Theorem C15_multibwr_two_terms : forall m q2 q02 ls d m0a g0a m0b g0b ca cb,
+  MultiBWR m q2 q02 ls d [(m0a, g0a); (m0b, g0b)] [[ca; cb]] 0 =
+  Cscal (ls_barrier (nth 0 ls 0%nat) q2 q02 d)
+        (Cadd (Cmul (BWR2 m m0a g0a q2 q02 (lmin ls) d) ca) (Cmul (BWR2 m m0b g0b q2 q02 (lmin ls) d) cb)).
+Proof. exact multibwr_two_terms. Qed.
+Print Assumptions C15_multibwr_two_terms.
+
+(* one sub-resonance with coefficient 1: barrier factor x BWR2 (min l) *)
+Theorem C15_multibwr_single : forall m q2 q02 ls d m0 g0 (coeff : list (list C)) i,
+  nth i coeff [] = [(1, 0)] ->
+  MultiBWR m q2 q02 ls d [(m0, g0)] coeff i =
+  Cscal (ls_barrier (nth i ls 0%nat) q2 q02 d) (BWR2 m m0 g0 q2 q02 (lmin ls) d).
+Proof. exact multibwr_single. Qed.
+Print Assumptions C15_multibwr_single.
+
+(* ... which for an S wave is exactly BWR *)
+Theorem C15_multibwr_single_swave_is_bwr : forall m q q0 d m0 g0,
+  0 < q -> 0 < q0 ->
+  MultiBWR m (q ^ 2) (q0 ^ 2) [0%nat] d [(m0, g0)] [[(1, 0)]] 0 = BWR m m0 g0 q q0 0 d.
+Proof. exact multibwr_single_swave_is_bwr. Qed.
+Print Assumptions C15_multibwr_single_swave_is_bwr.
+
+Theorem C15_multibwr_single_im_pos : forall m q q0 ls d m0 g0 (coeff : list (list C)) i,
+  nth i coeff [] = [(1, 0)] -> (lmin ls <= 8)%nat ->
+  0 < g0 -> 0 < q -> 0 < q0 -> 0 < m -> 0 < m0 ->
+  0 < snd (MultiBWR m (q ^ 2) (q0 ^ 2) ls d [(m0, g0)] coeff i).
+Proof. exact multibwr_single_im_pos. Qed.
+Print Assumptions C15_multibwr_single_im_pos.
+
+(* pole value i/(m0 Gamma0) holds when q02 is the break-up momentum at THAT sub-resonance's mass ... *)
+Theorem C15_multibwr_single_at_pole : forall q02 d m0 g0,
+  0 < q02 -> m0 <> 0 -> g0 <> 0 ->
+  MultiBWR m0 q02 q02 [0%nat] d [(m0, g0)] [[(1, 0)]] 0 = (0, 1 / (m0 * g0)).
+Proof. exact multibwr_single_at_pole. Qed.
+Print Assumptions C15_multibwr_single_at_pole.
+
+(* ... but the code uses ONE q02 for all sub-resonances: a second sub-resonance at its own mass is not
+   i/(m0 Gamma0) (its Gamma(m0_j) <> Gamma0_j).  Deviation from "combination of BWR", witness. *)
+Theorem C15_multibwr_sub_resonance_pole_refuted :
+  exists m00 g00 m01 g01 ma mb d,
+    0 < g01 /\ ma + mb < m00 /\ ma + mb < m01 /\
+    nth 1 (multi_doms m01 (get_relative_p2 m01 ma mb) (get_relative_p2 m00 ma mb) 0 d [(m00, g00); (m01, g01)]) (0, 0)
+    <> (0, 1 / (m01 * g01)).
+Proof. exact multibwr_sub_resonance_pole_refuted. Qed.
+Print Assumptions C15_multibwr_sub_resonance_pole_refuted.
+
+(* ---- MultiBW: documented "combine multi BW".  Before /repo fix 4a6337b the code never called its dom_fun and evaluated
+   MultiBWR: the OLD code model differs from the documented one (witness); the current code is tied to MultiBW_doc ---- *)
+Theorem C15_multibw_is_combination_of_bw_refuted :
+  exists m q2 q02 d m0 g0,
+    0 < q2 /\ 0 < q02 /\ 0 < g0 /\
+    MultiBW_code m q2 q02 [0%nat] d [(m0, g0)] [[(1, 0)]] 0 <> MultiBW_doc m q2 q02 [0%nat] d [(m0, g0)] [[(1, 0)]] 0.
+Proof. exact multibw_is_combination_of_bw_refuted. Qed.
+Print Assumptions C15_multibw_is_combination_of_bw_refuted.
+(* the documented model does reduce to BW *)
+Theorem C15_multibw_doc_single_is_bw : forall m q2 q02 d m0 g0,
+  MultiBW_doc m q2 q02 [0%nat] d [(m0, g0)] [[(1, 0)]] 0 = BW m m0 g0.
+Proof. exact multibw_doc_single_is_bw. Qed.
+Print Assumptions C15_multibw_doc_single_is_bw.
+
+(* non-vacuity *)
+Example C15b_example : 0 < snd (BWR_LS2 1 (3 / 2) (1 / 10) ((1 / 2) ^ 2) ((3 / 4) ^ 2) [0%nat; 2%nat] 3 1).
+Proof. apply bwr_ls2_im_pos; cbn; try lra; auto with arith. Qed.
